@@ -224,6 +224,31 @@ func bodyC03(c c03Case, x *vkit.Ctx) {
 
 	refuteLogs := func() int { return strings.Count(n.Log.String(), "Refuting an older leave intent") }
 	tainted := false
+	// syncQueued counts the joins about self that were queued synchronously by a
+	// step (own join, adopted gossip join). The node announces every refutation
+	// in its log before starting the goroutine that queues it; settled waits, at
+	// the end of a step, until all of them have arrived, so that no refutation
+	// is in flight when the next step reads the latest join (one push/pull can
+	// start two). If the log cannot account for the joins seen, later claims
+	// are judged non-strictly (tainted), as for bursts.
+	syncQueued := 0
+	settled := func() bool {
+		deadline, spins := time.Now().Add(waitCap), 0
+		for {
+			have, due := len(selfJoins()), syncQueued+refuteLogs()
+			if have > due {
+				tainted = true
+			}
+			if have >= due {
+				return true
+			}
+			if time.Now().After(deadline) {
+				x.Inconclusive("a refutation announced in the log has not queued its join")
+				return false
+			}
+			spin(&spins)
+		}
+	}
 	refuted, stale, viaPP, viaLocal, viaGossip, withPrune, bursts, top, extraJoin := 0, 0, 0, 0, 0, 0, 0, 0, 0
 	otherUp := false
 	for si, st := range c.Steps {
@@ -278,6 +303,7 @@ func bodyC03(c c03Case, x *vkit.Ctx) {
 				x.Violationf("own-join-error", "step %d: %v", si, err)
 				return
 			}
+			syncQueued++
 		case 4:
 			what = "user event"
 			_, e, _ := n.Serf.VerifClocks()
@@ -312,7 +338,11 @@ func bodyC03(c c03Case, x *vkit.Ctx) {
 			}
 		case 7:
 			what = "gossip join about self"
-			n.Delegate.NotifyMsg(encJoin(resolve(st.LT), self))
+			jt := resolve(st.LT)
+			if jt > statusLT() {
+				syncQueued++ // adopted and passed on (bookkeeping only, no verdict depends on it alone)
+			}
+			n.Delegate.NotifyMsg(encJoin(jt, self))
 		case 8:
 			what = "burst"
 			// Resolve every time first (the in-flight refutations of this
@@ -374,6 +404,9 @@ func bodyC03(c c03Case, x *vkit.Ctx) {
 				return
 			}
 			poll(n, func(serf.Event) {})
+			if !settled() {
+				return
+			}
 			continue
 		}
 		if !aliveCheck(si, what) {
@@ -407,6 +440,9 @@ func bodyC03(c c03Case, x *vkit.Ctx) {
 			}
 		}
 		poll(n, func(serf.Event) {})
+		if !settled() {
+			return
+		}
 	}
 	x.Labelf("refutations=%s", bucket(refuted, 0, 1, 3, 6))
 	if stale > 0 {
